@@ -6,6 +6,7 @@ import (
 	"math/rand"
 	"net/url"
 	"runtime/debug"
+	"sort"
 	"strings"
 	"sync"
 	"sync/atomic"
@@ -512,11 +513,19 @@ func c19lin(c *run.Ctx) {
 		c.Distinct[fmt.Sprintf("history clients=%d ops=%d result=%v", nClients, len(hist), res)]++
 		switch res {
 		case porcupine.Illegal:
-			var lines []string
-			for _, o := range hist {
-				lines = append(lines, fmt.Sprintf("client %d [%d,%d] %+v -> %v", o.ClientId, o.Call, o.Return, o.Input, o.Output))
-			}
 			_ = info
+			// the witness is the partition(s) without a linearization, not the whole history
+			var lines []string
+			for _, part := range model.Partition(hist) {
+				if r, _ := porcupine.CheckOperationsVerbose(model, part, 20*time.Second); r != porcupine.Illegal {
+					continue
+				}
+				sort.Slice(part, func(a, b int) bool { return part[a].Call < part[b].Call })
+				lines = append(lines, "partition without a linearization:")
+				for _, o := range part {
+					lines = append(lines, fmt.Sprintf("  client %d [%d,%d] %+v -> %v", o.ClientId, o.Call, o.Return, o.Input, o.Output))
+				}
+			}
 			c.Violate(run.Violation{Kind: "not-linearizable", Key: "not-linearizable store history", Detail: "no sequential order of the store operations explains the recorded results", History: lines})
 		case porcupine.Unknown:
 			c.Count("c19_porcupine_timeouts", 1)
